@@ -143,8 +143,35 @@ def site_reasons(site):
     return out
 
 
+def _input_delegate():
+    """Name of the private Runtime method that Runtime.input hands its values to (`_distribute` in the pinned source).
+    Findings at that site are identified by the public call site (mpc.input), so that renaming the private helper
+    does not turn a listed finding into a new one.  None unless Runtime.input calls exactly one private method."""
+    import ast
+    from lib.core import REPO
+    try:
+        tree = ast.parse(open(os.path.join(REPO, 'mpyc', 'runtime.py')).read())
+        cls = next(n for n in tree.body if isinstance(n, ast.ClassDef) and n.name == 'Runtime')
+        fn = next(n for n in cls.body if isinstance(n, (ast.FunctionDef, ast.AsyncFunctionDef)) and n.name == 'input')
+        methods = {n.name for n in cls.body if isinstance(n, (ast.FunctionDef, ast.AsyncFunctionDef))}
+        called = {c.func.attr for c in ast.walk(fn) if isinstance(c, ast.Call) and isinstance(c.func, ast.Attribute)
+                  and isinstance(c.func.value, ast.Name) and c.func.value.id == 'self'
+                  and c.func.attr.startswith('_') and c.func.attr in methods}
+        return called.pop() if len(called) == 1 else None
+    except Exception:
+        return None
+
+
+INPUT_DELEGATE = _input_delegate()
+INPUT_SITE = 'input/delegate' if INPUT_DELEGATE else '_distribute'
+
+
+def site_label(fn):
+    return INPUT_SITE if INPUT_DELEGATE and fn == INPUT_DELEGATE else fn
+
+
 def site_sig(site, reasons):
-    fn = site['func'].split('.')[-1]
+    fn = site_label(site['func'].split('.')[-1])
     r = reasons[0] if reasons else ('elements', '?')
     if r[0] == 'elements':
         first_only = all(k == 0 for (_, k) in expr_names(site['expr'], 'Idx'))
@@ -643,7 +670,7 @@ OPS = ['neg', 'pos', 'abs', 'sgn', 'lsb_flag', 'is_zero', 'add', 'sub', 'mul', '
 # list operation (as named in the random programs) -> runtime function holding its flag rule
 LIST_FN = {'vector_add': 'vector_add', 'vector_sub': 'vector_sub', 'schur_prod': 'schur_prod', 'scalar_mul': 'scalar_mul',
            'if_else_list': '_if_else_list', 'if_swap_list': '_if_swap_list', 'matrix_prod': 'matrix_prod',
-           'input_list': '_distribute', 'sum': 'sum', 'prod': 'prod', 'in_prod': 'in_prod'}
+           'input_list': INPUT_DELEGATE or '_distribute', 'sum': 'sum', 'prod': 'prod', 'in_prod': 'in_prod'}
 
 
 def leaves(ins):
@@ -925,7 +952,7 @@ def input_flag_test(ctx, Sim):
                 detail['product_x0_x1_per_party'] = [str(r)[:60] for r in r2]
                 detail['product_exact_scaled'] = str(Fr(res[0][1][0] * res[0][1][1], U))
                 differ = any(fs != flagsets[0] for fs in flagsets)
-                ctx.violation('flag-from-local-value site=_distribute' if differ else 'flag-wrong op=input-own-value', detail)
+                ctx.violation(('flag-from-local-value site=%s' % INPUT_SITE) if differ else 'flag-wrong op=input-own-value', detail)
         finally:
             quiet_close(sim)
 
